@@ -69,6 +69,16 @@ def program(family, d):
         return f"local n = {nest_arr}; n == n"
     if family == "nestobj_str":
         return f"std.length(std.toString({nest_obj}))"
+    if family == "ts_or":
+        return f"local f(n) = n == 0 || f(n - 1) tailstrict; f({d})"
+    if family == "ts_and":
+        return f"local f(n) = if n == 0 then true else (true && f(n - 1) tailstrict); f({d})"
+    if family == "ts_plus":
+        return f"local f(n) = if n == 0 then 0 else 1 + f(n - 1) tailstrict; f({d})"
+    if family == "ts_arg":
+        return f"local id(x) = x, f(n) = if n == 0 then 0 else id(f(n - 1) tailstrict); f({d})"
+    if family == "ts_elem":
+        return f"local f(n) = if n == 0 then 0 else [f(n - 1) tailstrict][0]; f({d})"
     if family == "cyc_eq":
         return "local a = [a]; a == a"
     if family == "cyc_lt":
